@@ -66,7 +66,18 @@ class Check(PropertyCheck):
         rng.shuffle(incompat)
         for a, b in compat:
             out.append({'kind': 'mm', 'op': 'mm', 'a': a, 'b': b})
-        for a, b in incompat[: 250 if quick else 3000]:
+        picked = set()
+        # stratified: every operand on the left with a partner of another output structure, and on the right
+        for a in names:
+            bad = [b for b in names if t[a][0] != t[b][1]]
+            for b in rng.sample(bad, min(2, len(bad))):
+                picked.add((a, b))
+            bad = [b for b in names if t[b][0] != t[a][1]]
+            for b in rng.sample(bad, min(2, len(bad))):
+                picked.add((b, a))
+        for a, b in incompat[: 100 if quick else 3000]:
+            picked.add((a, b))
+        for a, b in sorted(picked):
             out.append({'kind': 'mm-mismatch', 'op': 'mm', 'a': a, 'b': b})
         same, diff = [], []
         for a in names:
@@ -79,8 +90,24 @@ class Check(PropertyCheck):
         for a, b in same:
             out.append({'kind': 'add', 'op': 'add', 'a': a, 'b': b})
             out.append({'kind': 'sub', 'op': 'sub', 'a': a, 'b': b})
-        for a, b in diff[: 150 if quick else 1500]:
-            out.append({'kind': 'add-mismatch', 'op': rng.choice(['add', 'sub']), 'a': a, 'b': b})
+        picked = set()
+        # stratified: for every operand, partners that differ in the input only, in the output only, in both -
+        # as left and as right operand, for + and for -
+        for a in names:
+            only_in = [b for b in names if t[b][1] == t[a][1] and t[b][0] != t[a][0]]
+            only_out = [b for b in names if t[b][0] == t[a][0] and t[b][1] != t[a][1]]
+            both = [b for b in names if t[b][0] != t[a][0] and t[b][1] != t[a][1]]
+            for pool in (only_in, only_out, both):
+                if pool:
+                    b = rng.choice(pool)
+                    picked.add((a, b, 'add'))
+                    picked.add((b, a, 'add'))
+                    picked.add((a, b, 'sub'))
+                    picked.add((b, a, 'sub'))
+        for a, b in diff[: 50 if quick else 1500]:
+            picked.add((a, b, rng.choice(['add', 'sub'])))
+        for a, b, o in sorted(picked):
+            out.append({'kind': 'add-mismatch', 'op': o, 'a': a, 'b': b})
         # 2. unary and scalar forms on every operand
         for a in names:
             out.append({'kind': 'neg', 'op': 'neg', 'a': a})
@@ -102,6 +129,13 @@ class Check(PropertyCheck):
         rng.shuffle(chains3)
         for ch in chains3[: 400 if quick else 6000]:
             out.append({'kind': 'assoc', 'op': 'assoc', 'ops': ch})
+        # an operator and its own lazy inverse / orthogonal transpose at every pair of positions of a 3-chain
+        duals = [(x, xi) for x, xi in (('S22', 'S22I'), ('D2', 'D2I'), ('Q1', 'Q1T'), ('Q2', 'Q2T'), ('Qq', 'QqT')) if x in t and xi in t]
+        for x, xi in duals:
+            mids = [m for m in names if t[m][0] == t[x][1] and t[m][1] == t[x][0]]
+            for m in (mids if not quick else rng.sample(mids, min(6, len(mids)))):
+                for ch in ([x, m, xi], [xi, m, x], [m, x, xi], [m, xi, x], [x, xi, m], [xi, x, m]):
+                    out.append({'kind': 'assoc-dual', 'op': 'assoc', 'ops': ch})
         chains4 = [c for c in G.chains(4) if len(c) == 4]
         rng.shuffle(chains4)
         for ch in chains4[: 100 if quick else 2000]:
@@ -171,9 +205,24 @@ class Check(PropertyCheck):
             return list(case['ops'])
         return [case[n] for n in ('a', 'b', 'c') if n in case]
 
+    _frozen: dict = {}
+
+    def frozen(self, env):
+        """Dense matrices of every operand of the alphabet, measured ONCE per process before any arithmetic is
+        performed on them: an operation that mutates its operands cannot move the reference."""
+        if not self._frozen:
+            for n, o in env.items():
+                if not isinstance(o, A.Unbuildable):
+                    try:
+                        self._frozen[n] = A.reference_matrix(o)
+                    except Exception:
+                        continue
+        return self._frozen
+
     def reference(self, case, env):
         """NumPy arithmetic on the dense matrices of the operands; None when the structures mismatch."""
-        M = lambda n: A.reference_matrix(env[n])  # noqa: E731
+        fz = self.frozen(env)
+        M = lambda n: fz[n]  # noqa: E731
         op = case['op']
         t = G.typed()
         if op == 'mm':
@@ -209,8 +258,10 @@ class Check(PropertyCheck):
     def run_impl(self, case):
         env = G.env()
         enc = A.Encoder()
+        self.frozen(env)
         names = self.operand_names(case)
         terms = {n: enc.term(env[n]) for n in names}
+        before = {n: A.skeleton(env[n], enc) for n in names}
         thunk = self.thunk(case, env)
         if case['op'] == 'assoc':
             obs1 = A.observe_impl(lambda: thunk()[0], enc)
@@ -223,6 +274,14 @@ class Check(PropertyCheck):
             obs.pop('_op', None)
         ref = self.reference(case, env)
         obs['reference'] = None if ref is None else A.mat_json(A.frac_matrix(ref))
+        # purity: building an expression must not change its operands
+        obs['mutated'] = [n for n in names if A.skeleton(env[n], enc) != before[n]]
+        for n in names:
+            try:
+                if not np.allclose(A.dense(env[n]), self._frozen[n], atol=1e-5):
+                    obs['mutated'].append(n + ':matrix')
+            except Exception:
+                pass
         case['_terms'] = terms
         case['_table'] = enc.table_coq()
         case['_unsupported'] = enc.unsupported
@@ -325,6 +384,8 @@ class Check(PropertyCheck):
 
     # -- oracle -----------------------------------------------------------------------------------
     def oracle(self, case, obs):
+        if obs.get('mutated'):
+            return f'building the expression changed its operands {obs["mutated"]} (they no longer denote what they did)'
         ref = obs.get('reference')
         parts = [('left', obs['left']), ('right', obs['right'])] if case['op'] == 'assoc' else [('', obs)]
         for tag, o in parts:
